@@ -22,10 +22,8 @@
 # #include searches the directory of the including file first (and /repo/interfaces/C holds
 # a stale in-tree ppl_c.h).
 
-C20_HD := $(dir $(abspath $(lastword $(MAKEFILE_LIST))))
-include $(C20_HD)../Makefile
-
-.DEFAULT_GOAL := c20
+# This fragment is included at the end of /verif/Makefile (which defines B, REPO, FLAGS, INC, HINC, HLIBS, LDX).
+C20_HD := $(VERIF)/harness/
 .PHONY: c20 c20-gen c20-lib
 
 G     := $(B)/c20
